@@ -13,3 +13,10 @@ func (p *Prog) LockOrder() *LockOrder {
 	}
 	return p.lo
 }
+
+func (p *Prog) VFlow() *VFlow {
+	if p.vf == nil {
+		p.vf = BuildVFlow(p)
+	}
+	return p.vf
+}
